@@ -1,13 +1,23 @@
 (* C30 obligation: whichever two resolvent roots Euler's method picks (every alternative of the
    model), the members of the set returned by solve_poly_quartic denote exactly the roots of the
-   quartic (all branches: d == 0, g == 0, ff == 0, Euler). *)
+   quartic (all branches: d == 0, g == 0, ff == 0, Euler), provided the radicals that the
+   computation relies on (quartic_radicals: the nested cubic / quadratic roots and their square
+   roots) satisfy their defining relations.  Second form: radicals total. *)
 From Coq Require Import QArith List.
 From SE Require Import Base.Prelude C30.SolveModel C30.SolveProofs C30.SolveSpec.
 Import ListNotations.
 Theorem C30_quartic_roots_sound :
+  forall (K : radfield) (c0 c1 c2 c3 c4 : Q), ~ (c4 == 0)%Q ->
+  (forall e, In e (quartic_radicals c0 c1 c2 c3 c4) -> rad_okK K e) ->
+  forall alt, In alt (quartic_alts c0 c1 c2 c3 c4) ->
+  forall x : K, pevalK K [c0; c1; c2; c3; c4] x = f0 K <-> valsK K alt x.
+Proof. exact K_quartic_exact_local. Qed.
+Print Assumptions C30_quartic_roots_sound.
+
+Theorem C30_quartic_roots_sound_total :
   forall (K : radfield), radicals_total K ->
   forall (c0 c1 c2 c3 c4 : Q), ~ (c4 == 0)%Q ->
   forall alt, In alt (quartic_alts c0 c1 c2 c3 c4) ->
   forall x : K, pevalK K [c0; c1; c2; c3; c4] x = f0 K <-> valsK K alt x.
 Proof. exact K_quartic_exact. Qed.
-Print Assumptions C30_quartic_roots_sound.
+Print Assumptions C30_quartic_roots_sound_total.
